@@ -210,12 +210,14 @@ namespace DFS
       {
 	caches_[n] = 0;
       }
+    VERIF_EVENT("{\"e\":\"attach\",\"drive\":%s,\"dev\":%d}", n.to_string().c_str(), cfg ? verif::id_of(caches_[n].get()) : -1);
   }
 
   bool StorageConfiguration::connect_drives(const std::vector<std::optional<DriveConfig>>& drives,
 					    DriveAllocation how)
   {
     const auto limit = std::numeric_limits<drive_number>::max();
+    VERIF_EVENT("{\"e\":\"connect\",\"k\":%lu,\"how\":\"%s\"}", (unsigned long)drives.size(), how == DriveAllocation::PHYSICAL ? "PHYSICAL" : "FIRST");
     if (how == DriveAllocation::PHYSICAL)
       {
 	auto occ = [this](DFS::drive_number i) -> bool
@@ -291,6 +293,7 @@ namespace DFS
 	return false;
       }
     *pp = it->second.get();
+    VERIF_EVENT("{\"e\":\"select\",\"drive\":%s,\"dev\":%d}", drive.to_string().c_str(), verif::id_of(it->second.get()));
     return true;
   }
 
